@@ -30,6 +30,7 @@ def run(repo, run, tier):
     settings_reach_integrator(repo, run, cm)
     reset_unconditional(repo, run)
     no_inplace_on_aliases(repo, run)
+    callees_leave_arguments_alone(repo, run)
 
 
 def _integrate_writes(cm):
@@ -370,3 +371,25 @@ def no_inplace_on_aliases(repo, run):
     if n == 0:
         run.judged(rid, "no augmented assignment to a local name in the integrators", nontrivial=False)
         run.judged(rid, "(nothing to judge)", nontrivial=False)
+
+
+# ------------------------------------------------------------------------------------------------
+ARG_WRITE_EXEMPT = {
+    "compute_step": {"intermediate_stages_out": "output parameter by contract: the stage array of the integrator itself, never the caller's state"},
+    "newtontrustregion": {"initial_trust_region": "a Python float in every call made by the library (`*=` rebinds the local); not an array of the system"},
+}
+
+
+def callees_leave_arguments_alone(repo, run, rule_id="C13.8"):
+    """'The caller's initial state array and constants are never modified', 'reset() restores (t0, y0)': everything below OdeSystem.integrate() -- integrators,
+    stage solver, finite-difference Jacobian, root finders, interpolation helpers -- receives views of the system's own buffers and must only read them."""
+    from .common import args_unmodified
+    files = ["desolver/utilities/utilities.py", "desolver/utilities/optimizer.py", "desolver/utilities/interpolation.py", "desolver/integrators/integrator_types.py",
+             "desolver/integrators/components/runge_kutta_methods.py", "desolver/integrators/integrator_template.py", "desolver/integrators/utilities.py"]
+    first = True
+    for rel in files:
+        quals = [q for q, n in repo.functions(rel)]
+        # one rule, judged function by function over all files (the floor counts functions)
+        args_unmodified(repo, run, rule_id, rel, quals, "the functions below OdeSystem.integrate() (integrators, stage solver, finite-difference Jacobian, root finders, "
+                        "interpolation)", exempt=ARG_WRITE_EXEMPT, floor=60 if first else None)
+        first = False
